@@ -18,9 +18,10 @@ TOKEN_RE = re.compile(r"""
   | (?P<bc>/\*.*?\*/)
   | (?P<str>"(?:\\.|[^"\\])*")
   | (?P<num>\d[\d_]*(?:\.\d[\d_]*)?(?:[eE][-+]?\d+)?(?:_?(?:f64|f32|usize|u64|u32|i32|i64|u16|i16|u8))?)
+  | (?P<chr>'(?:\\.|\\u\{[0-9a-fA-F]+\}|[^'\\])')
   | (?P<life>'[a-zA-Z_]\w*)
   | (?P<id>[A-Za-z_]\w*)
-  | (?P<op>::|->|=>|==|!=|<=|>=|&&|\|\||\+=|-=|\*=|/=|\.\.=|\.\.|[-+*/%=<>!&|.,;:(){}\[\]#?@^])
+  | (?P<op>::|->|=>|==|!=|<=|>=|&&|\|\||\+=|-=|\*=|/=|\.\.=|\.\.|[-+*/%=<>!&|.,;:(){}\[\]#?@^$~])
 """, re.S | re.X)
 
 
@@ -460,6 +461,36 @@ def parse_file(src):
                 while not p.eat(";"):
                     p.next()
             structs[name] = {"fields": fields, "derives": derives}
+            derives = []
+            continue
+        if p.at("enum"):
+            p.next()
+            ename = p.ident()
+            p.expect("{")
+            variants = []
+            while not p.at("}"):
+                skip_attrs(p)
+                vname = p.ident()
+                vfields = []
+                if p.at("{"):
+                    p.next()
+                    while not p.at("}"):
+                        skip_attrs(p)
+                        fn_ = p.ident()
+                        p.expect(":")
+                        vfields.append((fn_, parse_type(p)))
+                        if not p.eat(","):
+                            break
+                    p.expect("}")
+                elif p.at("("):
+                    skip_balanced(p, "(", ")")
+                if p.eat("="):
+                    p.next()
+                variants.append((vname, vfields))
+                if not p.eat(","):
+                    break
+            p.expect("}")
+            structs["enum " + ename] = {"variants": variants, "derives": derives, "fields": []}
             derives = []
             continue
         if p.at("impl"):
